@@ -207,7 +207,7 @@ SYNC_COUNTERS = ("STOP_THE_WORLD", "STOP_THE_WORLD_FINISHED", "SCANS_OF_OTHER_TH
 
 
 def programs(tier):
-    nprog = 33 if tier == "quick" else 660
+    nprog = 55 if tier == "quick" else 660
     r = core.rng("C16")     # the same workload for both properties
     progs = []
     for i in range(nprog):
